@@ -260,6 +260,59 @@ func init() {
 		}
 		return "ok"
 	})
+	registerEval("halttc", func(a []string) string {
+		// halttc <clock-ms> <wait-ms> <fen6>: an analysis under a time control whose hard limit passes (the engine's own timer halts
+		// the search), and only then the user's Halt - twice: both must return the deepest iteration that was reported, a result
+		// of a direct search of that depth
+		clock, _ := strconv.Atoi(a[0])
+		wait, _ := strconv.Atoi(a[1])
+		e := newEngine(0, engine.Options{})
+		ctx := context.Background()
+		if err := e.Reset(ctx, strings.Join(a[2:], " ")); err != nil {
+			return "err"
+		}
+		tc := searchctl.TimeControl{White: time.Duration(clock) * time.Millisecond, Black: time.Duration(clock) * time.Millisecond}
+		out, err := e.Analyze(ctx, searchctl.Options{TimeControl: lang.Some(tc)})
+		if err != nil {
+			return "err-analyze"
+		}
+		var seen []search.PV
+		done := make(chan struct{})
+		go func() {
+			for pv := range out {
+				seen = append(seen, pv)
+			}
+			close(done)
+		}()
+		time.Sleep(time.Duration(wait) * time.Millisecond * loadScale())
+		first, _ := e.Board(), 0
+		_ = first
+		pv1, _ := e.Halt(ctx)
+		select {
+		case <-done:
+		case <-time.After(20 * time.Second * loadScale()):
+			return "hang"
+		}
+		pv2, _ := e.Halt(ctx)
+		deepest := 0
+		for _, pv := range seen {
+			if pv.Depth > deepest {
+				deepest = pv.Depth
+			}
+		}
+		if pv1.Depth < deepest || pv1.Depth == 0 {
+			return fmt.Sprintf("MISMATCH Halt after the hard limit returned depth %d although depth %d was reported", pv1.Depth, deepest)
+		}
+		ab, _ := searchCfg("full-static")
+		_, s, moves, _ := ab.Search(ctx, &search.Context{TT: search.NoTranspositionTable{}}, e.Board(), pv1.Depth)
+		if s != pv1.Score || pvStr(moves) != pvStr(pv1.Moves) {
+			return fmt.Sprintf("MISMATCH Halt returned a depth-%d result that a direct search of that depth does not give", pv1.Depth)
+		}
+		if pv2.Depth != 0 && (pv2.Depth != pv1.Depth || pv2.Score != pv1.Score) {
+			return fmt.Sprintf("MISMATCH a second Halt returned depth %d, the first depth %d", pv2.Depth, pv1.Depth)
+		}
+		return "ok"
+	})
 	registerEval("iterhalt", func(a []string) string {
 		// iterhalt <gateN> <fen6>: a halt that arrives while depth 1 is still running must wait for it
 		n, _ := strconv.Atoi(a[0])
@@ -373,11 +426,14 @@ func init() {
 		}
 		// (2b) a listener that comes late: tiny trees, limits beyond any plausible buffer
 		for k, f := range []string{"7k/5Q2/6K1/8/8/8/8/8 b - - 0 1", "5k2/5P2/5K2/8/8/8/8/8 b - - 0 1", "7k/7P/7K/8/8/8/8/8 b - - 0 1", "k7/8/K7/8/8/8/8/8 b - - 0 1"} {
-			for _, lim := range []int{3, 17, 40} {
+			for _, lim := range []int{3, 17, 40, 200} { // 200: beyond the 127 an int8 ply counter would suggest
 				if k == 3 && lim > 3 { // the last one has a (small) tree: K v K is not drawn until a capture leads to it
 					lim = 9
 				}
 				if lim == 40 && !thorough && r.Intn(2) == 0 {
+					continue
+				}
+				if lim == 200 && k != 0 && !thorough {
 					continue
 				}
 				line := fmt.Sprintf("published iterlate %d %s", lim, f)
@@ -385,6 +441,13 @@ func init() {
 				o.Count("iterlate")
 				o.Nontrivial(line)
 			}
+		}
+		// (2b') the engine's own timer halts first, the user's Halt comes second
+		for i := 0; i < 2; i++ {
+			line := fmt.Sprintf("published halttc %d %d %s", []int{400, 1200}[i], []int{150, 250}[i], []string{fen.Initial, "r3k2r/p1ppqpb1/bn2pnp1/3PN3/1p2P3/2N2Q1p/PPPBBPPP/R3K2R w KQkq - 0 1"}[i])
+			o.do(line)
+			o.Count("halttc")
+			o.Nontrivial(line)
 		}
 		// (2c) successive analyses of one position with different limits on one engine, table kept between them
 		ra := 4
